@@ -139,6 +139,11 @@ fn child_main(engine: &mut Engine, case: &Case, res_fd: i32, out_fd: i32, err_fd
         let z = libc::rlimit { rlim_cur: 0, rlim_max: 0 };
         libc::setrlimit(libc::RLIMIT_CORE, &z);
     }
+    // the handshake counters count from the start of the case (the boot of the engine stops the world
+    // for every builtin definition)
+    verif::WORLD_STOPS.store(0, std::sync::atomic::Ordering::SeqCst);
+    verif::FOREIGN_ACCESSES.store(0, std::sync::atomic::Ordering::SeqCst);
+    verif::SCAN_OVERLAPS.store(0, std::sync::atomic::Ordering::SeqCst);
     let mut out_off: i64 = 0;
     for step in &case.steps {
         let t0 = std::time::Instant::now();
@@ -302,6 +307,13 @@ fn main() {
             *LAST_PANIC.lock().unwrap() = Some(format!("{} @ {}", msg, loc));
         }
         eprintln!("[panic thread={}] {} @ {}", tname, msg, loc);
+        // development aid: SVWORKER_BACKTRACE=1 prints the steel frames of the panicking thread
+        if std::env::var("SVWORKER_BACKTRACE").is_ok() {
+            let bt = std::backtrace::Backtrace::force_capture().to_string();
+            for l in bt.lines().filter(|l| l.contains("steel") || l.contains("/repo/")).take(60) {
+                eprintln!("  bt: {}", l.trim());
+            }
+        }
     }));
     let t0 = std::time::Instant::now();
     let mut engine = Engine::new();
